@@ -10,6 +10,7 @@
 (*   [t |-> "blk",  b |-> bytes]        definite-length block              *)
 (*   [t |-> "tup",  items |-> <<values>>]   tuples, slices, vectors        *)
 (*   [t |-> "unit"]                     handlers that return no value      *)
+(*   [t |-> "flt", ty, bits]            f32 / f64 (syntax only, see below) *)
 (*                                                                         *)
 (* ABSTRACT: Decodes(bytes, v) - the RELATION "these bytes are response    *)
 (* data that decode to v" (several byte strings may decode to one value).  *)
@@ -41,6 +42,7 @@ EncodeL(v, legacy) ==
                        ELSE LET l == NatAscii(Len(v.b)) IN <<HASH, Len(l) + 48>> \o l \o v.b
     [] v.t = "tup"  -> JoinComma([i \in 1..Len(v.items) |-> EncodeL(v.items[i], legacy)])
     [] v.t = "unit" -> <<>>
+    [] v.t = "flt"  -> <<48>>      \* floats: only the syntax is specified here, see below
 Encode(v) == EncodeL(v, FALSE)
 
 \* ------------------------------------------------------------- decoding
@@ -63,6 +65,8 @@ StrScan(x, i, acc) ==
   ELSE IF i + 1 <= Len(x) /\ x[i + 1] = DQ THEN StrScan(x, i + 2, Append(acc, DQ))
   ELSE [j |-> i + 1, b |-> acc]
 
+RECURSIVE FloatEnd(_, _)
+FloatEnd(x, i) == IF i <= Len(x) /\ (IsDigit(x[i]) \/ x[i] \in {PLUS, MINUS, DOT, 69, 101}) THEN FloatEnd(x, i + 1) ELSE i
 RECURSIVE MatchAt(_, _, _)
 RECURSIVE MatchItems(_, _, _, _)
 MatchItems(items, k, x, i) ==       \* items k..Len matched from i, separated by commas
@@ -94,6 +98,12 @@ MatchAt(v, x, i) ==
                  ELSE {}
          ELSE {}
     [] v.t = "tup" -> MatchItems(v.items, 1, x, i)
+    [] v.t = "flt" ->
+         \* binary floating point is outside TLC's reach: the specification pins the syntax
+         \* (a decimal real) here; that its correctly rounded value is bit-identical to the
+         \* returned float (NaN / infinity sentinels included) is decided by the harness's
+         \* exact-rational evaluation of ScpiFloat's definition (bin/vlib/floats.py)
+         LET j == FloatEnd(x, i) IN IF j > i THEN {j} ELSE {}
     [] v.t = "unit" -> {i}
 Decodes(x, v) == (Len(x) + 1) \in MatchAt(v, x, 1)
 =============================================================================
